@@ -4,15 +4,24 @@ namespace ConnFull
 
 /-! ### fileRange -/
 
+theorem fileRangeAux_eq (g : Cfg) (off n : Nat) : ∀ acc : Bytes,
+    fileRangeAux g off n acc = ((List.range n).map fun i => g.file (off + i)) ++ acc := by
+  induction n with
+  | zero => intro acc; simp [fileRangeAux]
+  | succ n ih => intro acc; rw [fileRangeAux, ih, List.range_succ]; simp
+
+theorem fileRange_eq (g : Cfg) (off n : Nat) : fileRange g off n = (List.range n).map fun i => g.file (off + i) := by
+  simp [fileRange, fileRangeAux_eq]
+
 theorem fileRange_length (g : Cfg) (off n : Nat) : (fileRange g off n).length = n := by
-  simp [fileRange]
+  simp [fileRange_eq]
 
 theorem fileRange_zero (g : Cfg) (off : Nat) : fileRange g off 0 = [] := by
-  simp [fileRange]
+  simp [fileRange_eq]
 
 theorem fileRange_add (g : Cfg) (off a b : Nat) :
     fileRange g off (a + b) = fileRange g off a ++ fileRange g (off + a) b := by
-  simp [fileRange, List.range_add, List.map_append, List.map_map, Function.comp_def, Nat.add_assoc]
+  simp [fileRange_eq, List.range_add, List.map_append, List.map_map, Function.comp_def, Nat.add_assoc]
 
 theorem fileRange_split (g : Cfg) (off n rem : Nat) (h : n ≤ rem) :
     fileRange g off rem = fileRange g off n ++ fileRange g (off + n) (rem - n) := by
@@ -32,6 +41,28 @@ theorem unsent_cons (t : Item) (wl : List Item) : unsent (t :: wl) = t.held + un
   simp [unsent]
 theorem backlog_cons (t : Item) (wl : List Item) : backlog (t :: wl) = t.todo + backlog wl := by
   simp [backlog]
+
+theorem foldFile_eq {α : Type} (g : Cfg) (f : α → UInt8 → α) (rem : Nat) : ∀ (off : Nat) (a : α),
+    foldFile g f off rem a = (fileRange g off rem).foldl f a := by
+  induction rem with
+  | zero => intro off a; simp [foldFile, fileRange_zero]
+  | succ n ih =>
+    intro off a
+    have e : fileRange g off (n + 1) = g.file off :: fileRange g (off + 1) n := by
+      rw [Nat.add_comm n 1, fileRange_add g off 1 n]; simp [fileRange_eq]
+    rw [foldFile, ih, e, List.foldl_cons]
+
+/-- the driver's hash of the queued bytes is the hash of `pending` -/
+theorem foldPending_eq {α : Type} (g : Cfg) (f : α → UInt8 → α) (wl : List Item) : ∀ a : α,
+    foldPending g f wl a = (pending g wl).foldl f a := by
+  induction wl with
+  | nil => intro a; rfl
+  | cons t tl ih =>
+    intro a
+    rw [pending_cons, List.foldl_append]
+    cases t with
+    | buf d off => rw [foldPending, ih]; rfl
+    | file off rem => rw [foldPending, ih, foldFile_eq]; rfl
 
 theorem pending_append (g : Cfg) (a b : List Item) : pending g (a ++ b) = pending g a ++ pending g b := by
   simp [pending]
